@@ -4,7 +4,7 @@ import build, tlc, behaviours, traces, ipcnames
 from core import Machinery, run_driver
 
 WRAPS = ["socket", "accept", "close", "fopen", "fclose", "opendir", "closedir", "mmap", "munmap", "sem_open", "sem_close", "sem_unlink",
-         "shm_open", "shm_unlink", "dlopen", "dlclose", "poll", "getsockname"]
+         "shm_open", "shm_unlink", "dlopen", "dlclose", "poll", "getsockname", "getaddrinfo", "freeaddrinfo"]
 # kind -> can the creation fail in a controlled way
 KINDS = {"tree": False, "hashtable": False, "list": False, "ini": True, "hash": True, "error": False, "dir": True, "sockaddr": True, "tcp": True,
          "tcp_timeout": False, "sock_intr": False, "from_fd": True, "accept_fail": False, "bind_used": False, "udp": False, "sem": True, "sem2": False, "shm": True, "shm_same": False, "shm_smaller": False,
